@@ -199,7 +199,7 @@ func residual(a mat.Matrix, trans bool, b mat.Matrix, rr, rc int, x func(i, j in
 	return ""
 }
 
-func mkLU(n int) *mat.LU { var f mat.LU; f.Factorize(fDom(n, n, 6)); return &f }
+func mkLU(n int) *mat.LU { var f mat.LU; f.Factorize(sysDom(n)); return &f }
 func mkChol(n int) *mat.Cholesky {
 	var f mat.Cholesky
 	if !f.Factorize(aSPD(n)) {
@@ -370,7 +370,10 @@ func toDenseTemplates() []*tmpl {
 			verify: func(c *refCtx, res func(i, j int) float64) string {
 				trans, cond := sv.decode(c.fv)
 				if cond != condWell {
-					return ""
+					// verify only runs when the call returned no error: the
+					// ill-conditioned / singular system failed to reach the
+					// error-returning path (vacuity guard of the harness).
+					return "the ill-conditioned or singular system returned no error: error path not exercised"
 				}
 				return residual(cachedA(&sv, c.rr), sv.transA(trans), c.x, c.rr, c.rc, res)
 			}})
@@ -448,7 +451,10 @@ func toVecTemplates() []*tmpl {
 			verify: func(c *refCtx, res func(i, j int) float64) string {
 				trans, cond := sv.decode(c.fv)
 				if cond != condWell {
-					return ""
+					// verify only runs when the call returned no error: the
+					// ill-conditioned / singular system failed to reach the
+					// error-returning path (vacuity guard of the harness).
+					return "the ill-conditioned or singular system returned no error: error path not exercised"
 				}
 				return residual(cachedA(&sv, c.rr), sv.transA(trans), c.x, c.rr, 1, res)
 			}})
